@@ -80,8 +80,11 @@ pub fn is_live_rcbox(addr: usize) -> bool {
     }
 }
 
-/// Drain the queue of released `RcBox` block addresses.
-pub fn drain_freed(mut f: impl FnMut(usize)) {
+/// Drain the queue of candidate-block events in the order they happened: `f(addr, true)` for an
+/// allocation, `f(addr, false)` for a release.  (Blocks are 64-aligned, bit 0 tags allocations.)
+/// The order matters: a buffer of the library with the `RcBox<Node>` layout may be allocated at the
+/// address of an object released earlier in the same operation.
+pub fn drain_events(mut f: impl FnMut(usize, bool)) {
     loop {
         let t = FREED_TAIL.load(Relaxed);
         if t == FREED_HEAD.load(Relaxed) {
@@ -89,8 +92,14 @@ pub fn drain_freed(mut f: impl FnMut(usize)) {
         }
         let a = FREED_Q[t & (QCAP - 1)].load(Relaxed);
         FREED_TAIL.store(t + 1, Relaxed);
-        f(a);
+        f(a & !1, a & 1 == 1);
     }
+}
+
+fn push_event(v: usize) {
+    let h = FREED_HEAD.load(Relaxed);
+    FREED_Q[h & (QCAP - 1)].store(v, Relaxed);
+    FREED_HEAD.store(h + 1, Relaxed);
 }
 
 pub struct Tracking;
@@ -111,6 +120,7 @@ unsafe impl GlobalAlloc for Tracking {
                 if TRACK.load(Relaxed) && layout.size() == RCBOX_SIZE.load(Relaxed) {
                     live_insert(p as usize);
                     LIVE_RCBOX.fetch_add(1, Relaxed);
+                    push_event(p as usize | 1);
                 }
             }
         }
@@ -125,9 +135,7 @@ unsafe impl GlobalAlloc for Tracking {
                 return;
             }
             LIVE_RCBOX.fetch_sub(1, Relaxed);
-            let h = FREED_HEAD.load(Relaxed);
-            FREED_Q[h & (QCAP - 1)].store(p as usize, Relaxed);
-            FREED_HEAD.store(h + 1, Relaxed);
+            push_event(p as usize);
         }
         LIVE_BYTES.fetch_sub(layout.size() as isize, Relaxed);
         LIVE_BLOCKS.fetch_sub(1, Relaxed);
@@ -140,16 +148,19 @@ unsafe impl GlobalAlloc for Tracking {
         let tracked = layout.align() == 64 && TRACK.load(Relaxed);
         if tracked && layout.size() == RCBOX_SIZE.load(Relaxed) && live_remove(p as usize) {
             LIVE_RCBOX.fetch_sub(1, Relaxed);
+            push_event(p as usize);
         }
         let q = System.realloc(p, layout, new_size);
         if q.is_null() {
             if tracked && layout.size() == RCBOX_SIZE.load(Relaxed) {
                 live_insert(p as usize);
                 LIVE_RCBOX.fetch_add(1, Relaxed);
+                push_event(p as usize | 1);
             }
         } else if tracked && new_size == RCBOX_SIZE.load(Relaxed) {
             live_insert(q as usize);
             LIVE_RCBOX.fetch_add(1, Relaxed);
+            push_event(q as usize | 1);
         }
         if !q.is_null() {
             LIVE_BYTES.fetch_add(new_size as isize - layout.size() as isize, Relaxed);
